@@ -709,7 +709,7 @@ def run(chk):
     if not ok:
         handle_broken(chk)
 
-    n_hist = 420 if quick else 12000
+    n_hist = 2500 if quick else 40000
     max_len = 15 if quick else 40
     cases = []
     for is_map, (k0, hk, m), ops in CORPUS:
